@@ -43,7 +43,16 @@ def run(run, suspicious):
                 [("broadcast=%s,method=%s" % (b, m), (lambda b=b, m=m: df.merge(sm3, on="k", broadcast=b, shuffle_method=m))) for b in (None, True, False, 0.1, 0.9) for m in ("tasks", "disk")] +
                 [("npartitions=%s" % p, (lambda p=p: df.merge(sm3, on="k", npartitions=p, shuffle_method="tasks"))) for p in (1, 2, 7)] +
                 [("single-partition-right", (lambda: df.merge(sm1, on="k")))]), False, False),
-            "merge-left": (lambda: df.merge(sm3, on="k", how="left"), {"broadcast=%s" % b: (lambda b=b: df.merge(sm3, on="k", how="left", broadcast=b, shuffle_method="tasks")) for b in (True, False, 0.9)}, False, False),
+            "merge-left": (lambda: df.merge(sm3, on="k", how="left"), dict(
+                [("broadcast=%s" % b, (lambda b=b: df.merge(sm3, on="k", how="left", broadcast=b, shuffle_method="tasks"))) for b in (True, False, 0.9)] +
+                [("broadcast=True,npartitions=%s" % p, (lambda p=p: df.merge(sm3, on="k", how="left", broadcast=True, npartitions=p, shuffle_method="tasks"))) for p in (1, 2, 5)]), False, False),
+            "merge-right": (lambda: sm3.merge(df, on="k", how="right"), dict(
+                [("broadcast=%s" % b, (lambda b=b: sm3.merge(df, on="k", how="right", broadcast=b, shuffle_method="tasks"))) for b in (True, False)] +
+                [("broadcast=True,npartitions=%s" % p, (lambda p=p: sm3.merge(df, on="k", how="right", broadcast=True, npartitions=p, shuffle_method="tasks"))) for p in (1, 2)]), False, False),
+            "merge-leftsemi": (lambda: df.merge(sm3[["k"]], on="k", how="leftsemi"), dict(
+                [("broadcast=%s,method=%s" % (b, m), (lambda b=b, m=m: df.merge(sm3[["k"]], on="k", how="leftsemi", broadcast=b, shuffle_method=m))) for b in (None, True, False) for m in ("tasks", "disk")]), False, False),
+            "merge-leftsemi-small-left": (lambda: sm3.merge(df[["k"]], on="k", how="leftsemi"), dict(
+                [("broadcast=%s" % b, (lambda b=b: sm3.merge(df[["k"]], on="k", how="leftsemi", broadcast=b, shuffle_method="tasks"))) for b in (None, True, False)]), False, False),
             "sort_values": (lambda: df.sort_values(["y", "k", "j", "x"]), dict(
                 [("npartitions=%s" % p, (lambda p=p: df.sort_values(["y", "k", "j", "x"], npartitions=p))) for p in (1, 2, 5)] +
                 [("upsample=%s" % u, (lambda u=u: df.sort_values(["y", "k", "j", "x"], upsample=u))) for u in (0.5, 2.0)] +
@@ -79,3 +88,64 @@ def run(run, suspicious):
                     if vc != bc:
                         run.violation("%s with %s (npartitions=%d, fuse=%s) differs from the default-knob result: %s vs %s" % (qn, vn, npart, fuse, _short(vc), _short(bc)), case)
     run.section("knob_grid", cases=ncase, partition_counts=list(nparts))
+    presorted(run, rt, pdf)
+
+
+def _ident(p):
+    return p
+
+
+def presorted(run, rt, pdf):
+    """set_index / sort_values on input that is already ordered by the key across partitions (unknown divisions), with cuts
+    both between and inside runs of equal keys; every knob variant, followed by steps that rely on the reported divisions."""
+    import pandas as pd
+    quick = run.tier == "quick"
+    spdf = pdf.sort_values("y", kind="stable").reset_index(drop=True)
+    ys = list(spdf.y)
+    inside = [i for i in range(1, len(ys)) if ys[i] == ys[i - 1]]          # a cut here splits a run of equal keys
+    between = [i for i in range(1, len(ys)) if ys[i] != ys[i - 1]]
+    rng = run.rng
+    cutsets = []
+    for _ in range(3 if quick else 12):
+        k = rng.choice([2, 3, 4])
+        cutsets.append(sorted(set(rng.sample(inside, min(len(inside), rng.randint(1, k))) + rng.sample(between, rng.randint(0, 2)))))
+    cutsets.append(sorted(rng.sample(between, 3)))
+    oracle = spdf.set_index("y")
+    ncase = 0
+    for cuts in cutsets:
+        bounds = [0] + cuts + [len(spdf)]
+        pieces = [spdf.iloc[a:b] for a, b in zip(bounds[:-1], bounds[1:])]
+        straddle = [ys[c] for c in cuts if ys[c] == ys[c - 1]]
+        def src():
+            return rt.dx.from_map(_ident, pieces, meta=spdf.iloc[:0])
+        np_in = len(pieces)
+        variants = dict(
+            [("default", lambda: src().set_index("y"))] +
+            [("npartitions=%s" % p, (lambda p=p: src().set_index("y", npartitions=p))) for p in (np_in, 1, 2, np_in + 2)] +
+            [("upsample=%s" % u, (lambda u=u: src().set_index("y", upsample=u))) for u in (0.5, 2.0)] +
+            [("method=%s" % m, (lambda m=m: src().set_index("y", shuffle_method=m))) for m in ("tasks", "disk")] +
+            [("sort_values+set_index sorted", lambda: src().sort_values("y").set_index("y", sorted=True))])
+        keys = sorted(set(straddle + [ys[0], ys[-1], ys[len(ys) // 2]]))
+        lo, hi = keys[0], keys[-1]
+        mid = keys[len(keys) // 2]
+        steps = dict(
+            [("full", (lambda c: c, lambda p: p))] +
+            [("loc[%s:%s]" % (k, k), (lambda c, k=k: c.loc[k:k], lambda p, k=k: p.loc[k:k])) for k in keys] +
+            [("loc[%s:%s]" % (mid, hi), (lambda c: c.loc[mid:hi], lambda p: p.loc[mid:hi])),
+             ("repartition(divisions)", (lambda c: c.repartition(divisions=sorted({ys[0], mid, ys[-1]}), force=True) if c.known_divisions else c, lambda p: p)),   # (unknown divisions are a legitimate layout)
+             ("aligned add", (lambda c: (c.x + c.k).to_frame("z"), lambda p: (p.x + p.k).to_frame("z"))),
+             ("index", (lambda c: c.index.to_frame(), lambda p: p.index.to_frame()))])
+        for vn, thunk in variants.items():
+            for sn, (f, g) in steps.items():
+                ncase += 1
+                run.count(("presorted", tuple(cuts), vn, sn), nontrivial=bool(straddle))
+                case = {"kind": "presorted", "cuts": cuts, "variant": vn, "step": sn}
+                exp = canon(g(oracle), False, True)
+                v = try_(lambda: f(thunk()).compute())
+                if v[0] == "raise":
+                    run.violation("set_index of presorted pieces (cuts %s, keys straddling %s) with %s then %s raises %s" % (cuts, straddle, vn, sn, v[1]), case)
+                    continue
+                got = canon(v[1], False, True)
+                if got != exp:
+                    run.violation("set_index of presorted pieces (cuts %s, keys straddling %s) with %s then %s: %s, pandas gives %s" % (cuts, straddle, vn, sn, _short(got), _short(exp)), case)
+    run.section("presorted_set_index", cases=ncase, cutsets=[list(c) for c in cutsets])
